@@ -24,6 +24,7 @@ INF = float("inf")
 FINDING_MINCIRCLE = "stops-mincircle-none"
 FINDING_NANZ = "stops-nan-altitude-statistics"
 FINDING_LOOSE = "stops-mincircle-not-enclosing"
+FINDING_DISPATCH = "stops-dispatch-verbose-as-downsampling"
 
 
 # ------------------------------------------------------------------------------------------------
@@ -278,12 +279,14 @@ class P(Prop):
     ]
     partial = []
     open_statements = [
-        "IEEE doubles: optimal_bracketed / optimal_rounded are proved for an abstract rounded addition (monotone, relative error u, no associativity); that binary64 addition satisfies these hypotheses (no NaN, no overflow, u = 2^-53) is assumed, not proved in Lean (Float is opaque), and is what the transfer check on doubles samples, with the same tolerance shape and the generous constant 1e-9",
-        "findStopsGlobal: the model (findStopsGlobalPy) reads the observations (x, y, z, t), computes the squared planimetric distances and the durations itself and applies the three tests, the final filter and the identifiers; minCircle (Welzl, randomised) and the temporal resampling `track ** (size/downsampling)` remain parameters: the check computes the circles with exact rational geometry — except the entries where tracklib's minCircle returns None (recorded from the run) and circles through >= 3 distinct fixes whose exact diameter equals the limit (doubles decide: read off the run) — and takes the resampled track from tracklib; that the circles handed to the model enclose their segments (hypothesis hc of stops_criterion / find_stops_global) is CHECKED by the driver on every case (enclosedB, theorem enclosedB_sound); that they are minimal (hmin of stops_fit_in_circle) and that tracklib's Welzl implementation returns them is not proved — the latter is what the cell-by-cell comparison of the reward matrix samples",
+        "IEEE doubles: optimal_rounded_fl proves T2-up-to-rounding for the addition a (+) b = fl(a + b) of ANY rounding function fl on an ordered field that is (1) monotone and (2) within u|x| of x (no associativity; monotonicity of the rounded addition and of the embedding are now derived, not assumed). What stays assumed about binary64 is exactly that the sum of two doubles is fl(exact sum) for such an fl with u = 2^-53 — true of round-to-nearest-even when no sum overflows and no operand is NaN (sums in the subnormal range are exact); Float is opaque in Lean, so (1) and (2) are not proved for the hardware and are what the transfer check on doubles samples, with the same tolerance shape and the generous constant 1e-9",
+        "findStopsGlobal: the model (findStopsGlobalPy) reads the observations (x, y, z, t), computes the squared planimetric distances and the durations itself and applies the three tests, the final filter and the identifiers; minCircle is now modelled ON ITS OWN (Model/MinCircle.lean: __welzl, __circle, ENUCoords.__eq__, the random draws as an explicit parameter; stream `mc`, theorems mincircle_*, circle_*), but inside findStopsGlobalPy its answers and the temporal resampling `track ** (size/downsampling)` remain parameters: composing the two models would need the draws of every minCircle call of a run (one global random stream shared by all segments) and the code's rounded square roots / complex circumcentre on doubles, so the check still computes the circles with exact rational geometry — except the entries where tracklib's minCircle returns None (recorded from the run) and circles through >= 3 distinct fixes whose exact diameter equals the limit (doubles decide: read off the run) — and takes the resampled track from tracklib; that the circles handed to the model enclose their segments (hypothesis hc of stops_criterion / find_stops_global) is CHECKED by the driver on every case (enclosedB, theorem enclosedB_sound); it is NOT true of tracklib's minCircle in general (theorem mincircle_not_enclosing), nor is minimality (hmin of stops_fit_in_circle): proved only for the leaves (circle_two_minimal, circle_three_minimal) and for inputs of <= 2 fixes (mincircle_small); for >= 3 fixes which draw sequences give the true minimal circle is open",
+        "minCircle on doubles: the model is exact (squared radii, rational circumcentre); the stream `mc` compares tracklib's doubles with it up to 1e-9 and does not compare inputs where a fix lies exactly on the circle through three other fixes (the code tests it against a centre computed in rounded complex arithmetic: the doubles decide, and the number of draws then differs) — about 30 % of the inputs generated, tagged in the input histogram",
         "findStopsGlobal with downsampling > 1: coordinates and times of the resampled track are interpolated doubles on which the code's own doubles (sqrt of a rounded sum, circumcentre, difference of absolute times) are not exact; a case with a value within 1e-9 of a threshold is not judged (tagged in the input histogram). Lengths are compared through their squares in the model (exact for the integer / dyadic tracks generated)",
         "findStopsGlobal: tracklib's minCircle sometimes returns a circle that does NOT enclose the segment (its three-point case returns the smallest two-point circle containing the third point instead of the circle through the three boundary points Welzl's recursion needs; about 40 %% of the random orders on the five lattice fixes of the witness): a reward is granted where the documented criterion gives 0. The circle returned is recorded from the run and handed to the model as such (the certificate enclosedB then rightly fails); class '%s', judged once it is listed in known_findings.json (findings/C12.json)" % FINDING_LOOSE,
         "findStopsGlobal on a track where every altitude of a reported stop is NaN raises ZeroDivisionError (the AVERAGER of no value) after the segmentation was computed: class '%s'; tracks where that can happen are generated once the class is listed in known_findings.json (findings/C12.json)" % FINDING_NANZ,
         "findStopsGlobal: when tracklib's minCircle returns None for a segment (three collinear boundary points met in some random orders of Welzl's algorithm) the code writes reward 0 where the documented criterion rewards the segment; the model has this case (`small = none`), the oracle demands the optimum of the DOCUMENTED criterion and reports the loss (class '%s')" % FINDING_MINCIRCLE,
+        "findStops(track, spatial, temporal, MODE_STOPS_GLOBAL, verbose=False) passes `verbose` where findStopsGlobal expects `downsampling`: every stop is reported with id_ini = id_end = 0 (theorem find_stops_dispatch_silent; the model has the dispatcher: findStopsPy); the same positional slip exists for MODE_STOPS_RTK. Class '%s': the identifiers are judged against the track itself once the class is listed in known_findings.json (findings/C12.json); until then these calls are compared with the model only" % FINDING_DISPATCH,
         "findStopsGlobalForRTK (outside the property's anchors): its tests are still exclusive (`<= duration`, `< std_max`) and its source comment documents a factor 0.33 under the root that the code does not have; only the delegation and the correspondence of its matrix construction are checked",
         "simplify's built-in cost functions (modes 4-6: minimum bounding rectangle geometry) are a parameter of the model; the check evaluates the module's own functions with the requested tolerance",
     ]
@@ -295,7 +298,10 @@ class P(Prop):
                 "optimalPartition(MAXIMIZE); findStopsGlobal from the caller's arguments (findStopsGlobalPy): choice of the track "
                 "(downsampling > 1: the resampled copy), planimetric distance2DTo and elapsed time read from the observations (x, y, z, t), "
                 "the three tests, the final filter, id_ini / id_end / nb_points (multiplied by downsampling), errors on tracks of 0..2 "
-                "observations; minCircle, the temporal resampling, the RTK variant's geometry and simplify's built-in cost functions are parameters")
+                "observations; the dispatcher findStops(..., MODE_STOPS_GLOBAL, verbose) (findStopsPy: verbose lands in downsampling); "
+                "util/geometrics.minCircle / minCircleOfPoints / __welzl / __circle and ENUCoords.__eq__ (Model/MinCircle.lean: random draws as an "
+                "explicit parameter, radii through their squares) as a routine of its own; inside findStopsGlobalPy minCircle's answers, the "
+                "temporal resampling, the RTK variant's geometry and simplify's built-in cost functions are parameters")
     rule = ("all {0,1,2}-valued symmetric matrices over N <= 4 (quick) / <= 5 (thorough) candidates and all {0,1}-valued for N = 6 (thorough), "
             "both directions; random symmetric matrices up to N = 12 over small integers / dyadic rationals (exact, model at Rat) and over doubles "
             "(model at Float, bit patterns): uniform, gaussian, one-decimal and tie-rich values, 1e300 sentinels, +inf entries, N = 2..3, junk in the "
@@ -309,7 +315,10 @@ class P(Prop):
             "observations (duplicates, collinear points, exact ties with both thresholds, diameter 0 or negative) WITH AN ALTITUDE CHANNEL (noise and "
             "jumps well above the diameter, ramps, constants, NaN), downsampling omitted / 1 / 1.0 / True / 0.5 (the track itself) or 2, 3, 1.5, 1.25 "
             "(the criterion is read on tracklib's temporal resampling of the track), positional / keyword / default-argument / verbose call forms; "
-            "findStopsGlobalForRTK on dyadic tracks with and without altitudes. Oracle: enumeration of all 2^(N-2) chains "
+            "the same through the dispatcher findStops(track, spatial, temporal, MODE_STOPS_GLOBAL[, True / False]); "
+            "findStopsGlobalForRTK on dyadic tracks with and without altitudes; minCircle / minCircleOfPoints on 0..7 fixes of a small lattice, a "
+            "quarter lattice or a wide lattice, places met twice (same or another altitude), with random.randint replaced by a generated draw "
+            "sequence handed to the model as well (correspondence only: centre, squared radius, number of draws, None). Oracle: enumeration of all 2^(N-2) chains "
             "in exact arithmetic on the matrix RECOMPUTED from the cost function and the requested parameter; for findStopsGlobal the DOCUMENTED "
             "reward recomputed from the (resampled) track with exact rational PLANIMETRIC geometry — enclosing circle and duration only, no "
             "distance test — must be the matrix passed down cell by cell, the answer must be optimal for it, and the stops RETURNED (id_ini, id_end) "
@@ -669,6 +678,13 @@ class P(Prop):
                     k = rng.randrange(1, n)
                     for p in pts[k:]:
                         p[2] += 60
+        if "ds" not in c and form in ("pos", "verbose") and rng.random() < 0.3:
+            # the dispatcher findStops(track, spatial, temporal, MODE_STOPS_GLOBAL[, verbose]): `verbose` lands in findStopsGlobal's
+            # `downsampling` (model: findStopsPy / boolNum); "vdefault" = the argument is omitted (True)
+            form = "dispatch"
+            c["ds"] = rng.choice([True, False, False])
+            if c["ds"] and rng.random() < 0.5:
+                c["vdefault"] = True
         if form != "pos":
             c["form"] = form
         if rng.random() < 0.15 and len({(p[0], p[1]) for p in pts}) == n:
@@ -1106,6 +1122,11 @@ class P(Prop):
                 self.S.optimalPartition, self.S.minCircle = spy, spy_mc
             if case.get("rtk"):
                 stops = self.S.findStopsGlobalForRTK(t, case["std"], case["duration"], 1, False)
+            elif form == "dispatch":
+                if case.get("vdefault") and case.get("ds", True) is True:
+                    stops = self.S.findStops(t, case["diameter"], case["duration"], self.S.MODE_STOPS_GLOBAL)
+                else:
+                    stops = self.S.findStops(t, case["diameter"], case["duration"], self.S.MODE_STOPS_GLOBAL, bool(case.get("ds", True)))
             elif form == "kw":
                 stops = self.S.findStopsGlobal(verbose=False, downsampling=case.get("ds", 1), duration=case["duration"],
                                                diameter=case["diameter"], track=t)
@@ -1313,7 +1334,8 @@ class P(Prop):
             # is the hypothesis of stops_criterion / find_stops_global
             cen = num["centres"]
             return ["C12.stopsd q %s %s %s %s %s %s %s %s %s" % (
-                ratstr(Fraction(case["diameter"])), ratstr(num["duration"]), ratstr(Fraction(ds)), self.mtok("q", [row(p) for p in own]),
+                ratstr(Fraction(case["diameter"])), ratstr(num["duration"]),
+                ("v1" if ds else "v0") if case.get("form") == "dispatch" else ratstr(Fraction(ds)), self.mtok("q", [row(p) for p in own]),
                 self.mtok("q", [row(p) for p in g["eff"]]) if ds > 1 else "_", self.mtok("q", circ), self.mtok("q", after),
                 self.mtok("q", [[c[0] for c in r] for r in cen]), self.mtok("q", [[c[1] for c in r] for r in cen]))]
 
@@ -1616,6 +1638,13 @@ class P(Prop):
         segments; a stop lost because minCircle returned None in the final filter is the known finding."""
         n = g["n"]
         ds = Fraction(case.get("ds", 1))
+        dispatch_silent = case.get("form") == "dispatch" and not ds > 0
+        if dispatch_silent:
+            # findStops(track, spatial, temporal, MODE_STOPS_GLOBAL, False): the caller asked for no downsampling at all — the stops
+            # are to be identified in the track itself; judged once the finding is listed (known_findings.json)
+            if FINDING_DISPATCH not in self.listed:
+                return None
+            ds = Fraction(1)
         if not ds > 0:
             return None
         idx = out["idx"]
@@ -1625,8 +1654,8 @@ class P(Prop):
         for st in out["stops"]:
             a, e = Fraction(st[0]) / ds, Fraction(st[1]) / ds
             if a.denominator != 1 or e.denominator != 1 or not (last < a <= e <= n - 3):
-                return "stops reported %s: (id_ini, id_end) / downsampling are not disjoint segments of the candidates 0..%d in increasing order" % (
-                    out["stops"], n - 2)
+                return "stops reported %s: (id_ini, id_end) / downsampling are not disjoint segments of the candidates 0..%d in increasing order%s" % (
+                    out["stops"], n - 2, " — findStops passed verbose=False as downsampling" if dispatch_silent else "")
             segs.append((int(a), int(e)))
             last = e
         got = sum((Dx[a][e + 1] for a, e in segs), Fraction(0))
@@ -1642,10 +1671,15 @@ class P(Prop):
                     return None
                 msg += " — minCircle returned a circle that does not enclose the segment(s) %s (row loops) / %s (final filter)" % (
                     [x[:2] for x in out.get("loose", [])], [x[:2] for x in out.get("loose_after", [])])
+            if dispatch_silent:
+                msg += " — findStops passed verbose=False as downsampling"
             return msg
         return None
 
     def classify(self, case, impl_out, msg):
+        if (case["kind"] == "stops" and case.get("form") == "dispatch" and case.get("ds") is False and msg
+                and "findStops passed verbose=False as downsampling" in str(msg)):
+            return FINDING_DISPATCH
         if case["kind"] == "stops" and not case.get("rtk") and msg and "minCircle returned None" in str(msg):
             return FINDING_MINCIRCLE
         if case["kind"] == "stops" and not case.get("rtk") and msg and "minCircle returned a circle that does not enclose" in str(msg):
@@ -1792,6 +1826,16 @@ P.theorems = P.theorems + [
      "minCircle returns None ONLY IF three entries of the input are collinear in the plane (two may be the same place): never on a track with no three collinear fixes, whatever the draws"),
     ("TracklibVerif.Props.C12MinCircle", "TV.C12.encloses_sound",
      "the certificate `enc` the driver evaluates on every answer of the mc stream is sound"),
+]
+
+# ---- rounded addition as the rounding of the exact sum; the dispatcher findStops ----
+P.theorems = P.theorems + [
+    ("TracklibVerif.Props.C12Round", "TV.C12.optimal_rounded_fl",
+     "T2 for the addition a (+) b = fl(a + b), ANY rounding fl of an ordered field that is monotone and has relative error u: monotonicity of the rounded addition and of the embedding are proved, not assumed; same bound as optimal_rounded, both directions"),
+    ("TracklibVerif.Props.C12Dispatch", "TV.C12.find_stops_dispatch_verbose",
+     "findStops(track, spatial, temporal, MODE_STOPS_GLOBAL[, True]) is findStopsGlobal with downsampling = 1 (verbose lands in the downsampling parameter; True is 1): find_stops_global applies to the dispatcher"),
+    ("TracklibVerif.Props.C12Dispatch", "TV.C12.find_stops_dispatch_silent",
+     "finding stops-dispatch-verbose-as-downsampling as a theorem about the model: findStops(..., MODE_STOPS_GLOBAL, False) reports the same stops as downsampling = 1 but with id_ini = id_end = 0 for every stop"),
 ]
 
 # ---- TIE3: translation tie of optimalPartition's D / M tables (generated TV.Gen.Segmentation.optimalPartition_tables) ----
